@@ -118,6 +118,12 @@ def _seed_corpus(workdir: str) -> str:
         for flags in (0, 1):
             with open(os.path.join(corpus, f"seed-{i}-{flags}"), "wb") as f:
                 f.write(bytes([0, flags]) + s.encode("utf-8"))
+    # saved inputs from earlier campaigns (tracked): replayed first by libFuzzer as part of the corpus
+    saved = os.path.join(os.path.dirname(os.path.dirname(os.path.abspath(__file__))), "regressions", "c22_corpus")
+    if os.path.isdir(saved):
+        for name in sorted(os.listdir(saved)):
+            with open(os.path.join(saved, name), "rb") as src, open(os.path.join(corpus, "saved-" + name), "wb") as dst:
+                dst.write(src.read())
     return corpus
 
 
